@@ -25,12 +25,16 @@ VARIABLES tid,    \* index of the current trace
           wl,     \* decoded records of the worklist so far
           live,   \* no operation of this trace has failed so far
           cok,    \* the composition chain is still within the supported arithmetic range
-          robv    \* the robot's own volumes: initial contents + every record executed so far (never re-synchronised
+          robv,   \* the robot's own volumes: initial contents + every record executed so far (never re-synchronised
                   \* with the twin while only tracked worklist operations happen)
-vars == <<tid, l, vol, comp, hn, wl, live, cok, robv>>
+          cfg     \* the worklist's public configuration [maxv, maxc, autosplit]: part of the state, callers may assign
+                  \* max_volume / auto_split between operations and every operation obeys the values current at its call
+vars == <<tid, l, vol, comp, hn, wl, live, cok, robv, cfg>>
 
-HdrT(tr) == [dev |-> tr.dev, unitc |-> tr.unitc, millis |-> tr.millis, k |-> tr.k, wlmax |-> tr.wl.maxv, wlmaxc |-> tr.wl.maxc,
+HdrT0(tr) == [dev |-> tr.dev, unitc |-> tr.unitc, millis |-> tr.millis, k |-> tr.k, wlmax |-> tr.wl.maxv, wlmaxc |-> tr.wl.maxc,
              autosplit |-> tr.wl.autosplit, diti |-> tr.wl.diti, lw |-> tr.lw]
+CfgOf(tr) == [maxv |-> tr.wl.maxv, maxc |-> tr.wl.maxc, autosplit |-> tr.wl.autosplit]
+HdrT(tr) == [HdrT0(tr) EXCEPT !.wlmax = cfg.maxv, !.wlmaxc = cfg.maxc, !.autosplit = cfg.autosplit]
 
 EmptyComp(tr) == [k \in 1..Len(tr.lw) |-> [i \in 1..Len(tr.lw[k].init.vol) |-> {}]]
 \* compositions handed to the robot / reference: only while they are tracked exactly
@@ -511,6 +515,8 @@ JudgeEvoWash(tr, T, ev) ==
        /\ c.ints = <<MaskOfSet(Range(TipNumbers(a.tips))), a.wg.v, a.ws.v - 1, a.cg.v, a.cs.v - 1, a.wdelay.v, a.cdelay.v,
                      a.airgap.v, a.aspeed.v, a.rspeed.v, a.fast.v, a.low.v, 1000, a.arm.v>>
        /\ c.wv = (a.wv + 5) \div 10 /\ c.cv = (a.cv + 5) \div 10),
+    \* C10: also the Wash command carries the OR of the distinct tips (repetitions and mixed spellings allowed)
+    Cl("C10.washmask", valid /\ ok /\ Len(cmds) = 1 /\ c.nargs = 16, c.ints[1] = MaskOfSet(Range(TipNumbers(a.tips)))),
     Cl("C13.wash.bad", ~valid, ~ok /\ ev.recs = <<>>)
   }
 
@@ -623,6 +629,7 @@ JudgeEvent(tr, T, ev) ==
           [] ev.op \in {"log", "condense"} -> JudgeHistApi(tr, T, ev)
           [] ev.op = "external" -> {}
           [] ev.op = "rawemit" -> {}
+          [] ev.op = "setconfig" -> {Cl("C01.config", TRUE, ev.out = "ok" /\ ev.recs = <<>> /\ ev.post.vol = vol /\ ev.post.hn = hn)}
           [] OTHER -> {Cl("machinery.unknown_op", TRUE, FALSE)})
   \cup (IF tr.pair THEN JudgePair(tr, ev) ELSE {})
   \cup (IF tr.flags.fullhist THEN JudgeFullHist(tr, T, ev) ELSE {})
@@ -633,6 +640,7 @@ InitOf(t) == LET tr == Traces[t] IN
    hn |-> [k \in 1..NLw(tr) |-> tr.lw[k].init.hn]]
 
 Init == /\ tid = 0 /\ l = 0 /\ vol = <<>> /\ comp = <<>> /\ hn = <<>> /\ wl = <<>> /\ live = TRUE /\ cok = TRUE /\ robv = <<>>
+        /\ cfg = [maxv |-> 0, maxc |-> 0, autosplit |-> TRUE]
         /\ InitRegisters
 
 \* first step of a trace: judge the constructor observations, load the initial state
@@ -642,6 +650,7 @@ StartTrace ==
   /\ LET t == tid + 1  tr == Traces[t]  s == InitOf(t) IN
      /\ Judge([tid |-> t, l |-> 0, id |-> tr.id, op |-> "init"], JudgeInit(tr))
      /\ tid' = t /\ l' = 1 /\ vol' = s.vol /\ comp' = s.comp /\ hn' = s.hn /\ wl' = <<>> /\ live' = TRUE /\ cok' = TRUE /\ robv' = s.vol
+     /\ cfg' = CfgOf(tr)
 
 Step ==
   /\ tid >= 1 /\ l <= Len(Traces[tid].events)
@@ -652,6 +661,8 @@ Step ==
      /\ wl' = IF ev.op = "enter" THEN <<>> ELSE wl \o ev.recs
      /\ live' = (live /\ ev.out = "ok" /\ ~Untracked(ev))
      /\ cok' = (cok /\ ev.cs)
+     /\ cfg' = IF ev.op = "setconfig" /\ ev.out = "ok"
+               THEN [maxv |-> ev.a.maxv, maxc |-> ev.a.maxc, autosplit |-> ev.a.autosplit] ELSE cfg
      /\ robv' = IF tr.flags.robot /\ live /\ ev.op \in TrackedOps
                 THEN LET rb == Run(T, robv, EmptyComp(tr), ReplayRecs(T, ev)) IN IF rb.err = "" THEN rb.vol ELSE robv
                 ELSE ev.post.vol     \* direct labware operations change the physical contents outside any worklist
